@@ -482,7 +482,7 @@ func main() {
 		r.Finish()
 	}
 
-	depth := r.Pick(8, 16)
+	depth := r.Pick(7, 16)
 	cfgs := []config{
 		{User: sessrig.UserRWS, KS: false}, {User: sessrig.UserRW, KS: false},
 		{User: sessrig.UserRWS, KS: true}, {User: sessrig.UserRW, KS: true},
@@ -580,7 +580,7 @@ func main() {
 	r.Set("alphabet", alphabet)
 	r.Set("per_configuration", perCfg)
 	r.Set("coverage_facts", facts)
-	r.Set("rule", "BFS over histories of <=depth commands from the alphabet, one search per configuration (user with/without rw-splitting x keep-session off/on); every history is replayed on fresh real Manager/Namespace/Session objects; states are merged by the canonical key (session status bits, savepoints, txConns/ksConns with renamed connection identities and backend state, monitor view, outstanding and idle connections per pool); distinct_nontrivial = distinct canonical states reached")
+	r.Set("rule", "BFS over histories of <=depth commands from the alphabet, one search per configuration (user type: normal with/without rw-splitting, statistic, monitor, thorough: admin; x keep-session off/on; five pool groups per slice); every history is replayed on fresh real Manager/Namespace/Session objects; states are merged by the canonical key (session status bits, savepoints, txConns/ksConns with renamed connection identities and backend state, monitor view, outstanding and idle connections per pool); distinct_nontrivial = distinct canonical states reached")
 	r.Assume("fake pools/connections model the backend: BEGIN/COMMIT/ROLLBACK/SET autocommit change the server-side transaction flags as MySQL does; pool.Put applies the real reset-on-put rule (rollback open transaction, autocommit back to 1)")
 	r.Assume("all backend calls answer ok (faults are C19's subject)")
 	// non-vacuity: the facts that make the oracle meaningful must have been observed
